@@ -3,6 +3,7 @@ package c09
 import (
 	"fmt"
 	"sort"
+	"strings"
 
 	"seehuhn.de/go/sfnt/cmap"
 	"seehuhn.de/go/sfnt/glyph"
@@ -121,8 +122,35 @@ func doEdges4(args []vlib.Sx) (res result, err error) {
 // minSize4 computes, from the hook's edges alone, the size in bytes of the
 // smallest format 4 subtable (dynamic programming over the acyclic graph), and
 // the vertices reachable from 0.
+var minCache struct {
+	key   string
+	size  int
+	verts []uint32
+}
+
 func minSize4(gm map[uint16]glyph.ID) (size int, vertices []uint32) {
-	const inf = 1 << 60
+	key := fmt.Sprint(len(gm), ":")
+	{
+		ks := make([]int, 0, len(gm))
+		for k := range gm {
+			ks = append(ks, int(k))
+		}
+		sort.Ints(ks)
+		var sb strings.Builder
+		for _, k := range ks {
+			fmt.Fprintf(&sb, "%d=%d,", k, gm[uint16(k)])
+		}
+		key += sb.String()
+	}
+	if minCache.key == key {
+		return minCache.size, minCache.verts
+	}
+	size, vertices = minSize4u(gm)
+	minCache.key, minCache.size, minCache.verts = key, size, vertices
+	return size, vertices
+}
+
+func minSize4u(gm map[uint16]glyph.ID) (size int, vertices []uint32) {
 	best := map[uint32]int{0: 0}
 	var order []uint32
 	todo := []uint32{0}
@@ -195,8 +223,29 @@ func doEmit4(args []vlib.Sx) (res result, err error) {
 	return r, nil
 }
 
-// encode4 runs Format4.Encode and the oracle on its output.
+var encCache struct {
+	key string
+	b   []byte
+	res result
+}
+
+// encode4 runs Format4.Encode and the oracle on its output (the last result is
+// remembered: the generator needs the output to write the case line, and
+// executing the line asks for it again).
 func encode4(m gmap, lang int) (b []byte, res result) {
+	key := fmt.Sprint(lang, " ", vlib.Str(m.sx()))
+	if encCache.key == key {
+		r := encCache.res
+		r.labels = append([]string(nil), r.labels...)
+		return encCache.b, r
+	}
+	b, res = encode4u(m, lang)
+	encCache.key, encCache.b, encCache.res = key, b, res
+	res.labels = append([]string(nil), res.labels...)
+	return b, res
+}
+
+func encode4u(m gmap, lang int) (b []byte, res result) {
 	gm := toGoMap(m)
 	res.labels = append(res.labels, sizeLabel("entries4", len(m)))
 	min, _ := minSize4(gm)
@@ -545,15 +594,15 @@ func gen4(run *vlib.Run, r *vlib.Rand, tier string) {
 			// the vertices the search can visit
 			_, verts := minSize4(gm)
 			pick := verts
-			if len(pick) > 80 {
-				pick = append([]uint32(nil), verts[:30]...)
-				for i := 0; i < 30; i++ {
+			if len(pick) > 30 {
+				pick = append([]uint32(nil), verts[:10]...)
+				for i := 0; i < 12; i++ {
 					pick = append(pick, verts[r.Intn(len(verts))])
 				}
-				pick = append(pick, verts[len(verts)-20:]...)
+				pick = append(pick, verts[len(verts)-8:]...)
 			}
 			// plus arbitrary vertices, the end of the code space and beyond
-			for i := 0; i < 6; i++ {
+			for i := 0; i < 2; i++ {
 				pick = append(pick, uint32(r.Intn(65536)))
 			}
 			pick = append(pick, 0xFFFB, 0xFFFC, 0xFFFD, 0xFFFE, 0xFFFF, 0x10000, 0x10001)
@@ -584,14 +633,14 @@ func gen4(run *vlib.Run, r *vlib.Rand, tier string) {
 			line = "!" + line
 		}
 		emit(run, line, labels...)
-		if b != nil && inside {
-			if len(encoded) < 4000 && len(b) < 6000 {
+		if b != nil && inside && len(b) <= 3000 {
+			if len(encoded) < 4000 {
 				encoded = append(encoded, b)
 			}
 			var cs vlib.List
 			pr := probes(m, 0xFFFF)
 			for i, c := range pr {
-				if len(pr) > 150 && i%(len(pr)/150+1) != 0 && c < 0xFFF0 {
+				if len(pr) > 40 && i%(len(pr)/40+1) != 0 && c < 0xFFFC {
 					continue
 				}
 				cs = append(cs, vlib.U64(uint64(c)))
@@ -616,7 +665,7 @@ func gen4(run *vlib.Run, r *vlib.Rand, tier string) {
 		doMap(m, 0, true, "end-of-code-space")
 	}
 
-	n := vlib.Count(tier, 700, 16000)
+	n := vlib.Count(tier, 230, 5000)
 	for i := 0; i < n; i++ {
 		m, labels := randomMap(r, 0xFFFF)
 		if _, ok := m[0xFFFF]; ok {
@@ -627,7 +676,7 @@ func gen4(run *vlib.Run, r *vlib.Rand, tier string) {
 
 	// exhaustive small windows: every assignment of {unmapped, delta A, delta B,
 	// other} to w consecutive codes, at the start, in the middle and at the end
-	w := vlib.Count(tier, 5, 7)
+	w := vlib.Count(tier, 3, 5)
 	total := 1
 	for i := 0; i < w; i++ {
 		total *= 4
@@ -657,10 +706,14 @@ func gen4(run *vlib.Run, r *vlib.Rand, tier string) {
 		kind string
 		n    int
 	}
-	bigs := []big{{"isolated", 8100}, {"isolated", 8185}, {"isolated", 8187}, {"isolated", 8190}, {"values", 32700}, {"values", 32760}, {"values", 32780}, {"runs", 60000}, {"identity", 65536}}
+	// (a block of n unrelated glyph ids makes AppendEdges quadratic in n: every
+	// code of the block is a vertex whose explicit-value proposal scans the rest;
+	// the 64 KiB block costs ~10 s per Encode and is left to the thorough tier)
+	bigs := []big{{"isolated", 8187}, {"values", 2500}, {"identity", 65536}}
 	if tier == "thorough" {
-		bigs = append(bigs, big{"isolated", 8186}, big{"isolated", 8188}, big{"isolated", 8189}, big{"isolated", 9000},
-			big{"values", 32750}, big{"values", 32755}, big{"values", 32765}, big{"values", 40000}, big{"mixed", 20000}, big{"mixed", 30000}, big{"runs", 65000})
+		bigs = append(bigs, big{"isolated", 8100}, big{"isolated", 8185}, big{"isolated", 8190}, big{"runs", 60000},
+			big{"isolated", 8186}, big{"isolated", 8188}, big{"isolated", 8189}, big{"isolated", 9000},
+			big{"values", 32755}, big{"values", 32765}, big{"mixed", 20000}, big{"mixed", 30000}, big{"runs", 65000})
 	}
 	for _, bg := range bigs {
 		m := gmap{}
@@ -712,7 +765,7 @@ func gen4(run *vlib.Run, r *vlib.Rand, tier string) {
 
 	// decoder: valid, truncated, extended, mutated, hand-built, adversarial
 	dline := func(b []byte) string { return vlib.Line(vlib.Atom("dec4"), vlib.Bool(false), vlib.Hex(b)) }
-	nd := vlib.Count(tier, 900, 20000)
+	nd := vlib.Count(tier, 700, 20000)
 	for i := 0; i < nd; i++ {
 		var b []byte
 		if r.Chance(1, 3) || len(encoded) == 0 {
